@@ -103,13 +103,23 @@ func (c12) Gen(r *sim.Rand, c *sim.Case, tier string) {
 				}
 				return float64(r.Range(0, 600)) / 10
 			}
-			ops = append(ops, sim.Op{K: "pg.margins", F: []float64{m(), m(), m(), m()}})
+			mo := sim.Op{K: "pg.margins", F: []float64{m(), m(), m(), m()}}
+			if r.Chance(0.12) { // back to the defaults, by naming them
+				df := c12default()
+				mo.F = []float64{df.mt, df.mr, df.mb, df.ml}
+			}
+			ops = append(ops, mo)
 		case 8:
 			ops = append(ops, sim.Op{K: "pg.hfdist", F: []float64{float64(r.Range(-2, 300)) / 10, float64(r.Range(0, 300)) / 10}})
 		case 9:
 			ops = append(ops, sim.Op{K: "pg.gutter", F: []float64{float64(r.Range(-3, 200)) / 10}})
 		case 10:
-			ops = append(ops, sim.Op{K: "pg.grid", S: []sim.Str{sim.Str(r.Pick("default", "lines", "linesAndChars", "snapToChars", ""))}, I: []int{r.Range(0, 600), r.Range(0, 100)}})
+			gop := sim.Op{K: "pg.grid", S: []sim.Str{sim.Str(r.Pick("default", "lines", "linesAndChars", "snapToChars", ""))}, I: []int{r.Range(0, 600), r.Range(0, 100)}}
+			if r.Chance(0.2) { // a call that names exactly the default grid (after whatever grid was set before)
+				df := c12default()
+				gop = sim.Op{K: "pg.grid", S: []sim.Str{sim.Str(df.gridType)}, I: []int{df.pitch, df.charSpace}}
+			}
+			ops = append(ops, gop)
 			cleared = false
 		case 11:
 			if !Wild {
@@ -120,6 +130,13 @@ func (c12) Gen(r *sim.Rand, c *sim.Case, tier string) {
 		case 12:
 			if r.Chance(0.15) {
 				ops = append(ops, sim.Op{K: "pg.set", I: []int{0, 0, 1}})
+				continue
+			}
+			if r.Chance(0.15) { // everything back to the defaults through one call that names them all
+				df := c12default()
+				ops = append(ops, sim.Op{K: "pg.set", S: []sim.Str{sim.Str(df.size), "portrait", sim.Str(df.gridType)},
+					F: []float64{0, 0, df.mt, df.mr, df.mb, df.ml, df.hd, df.fd, df.gutter}, I: []int{df.pitch, df.charSpace, 0}})
+				custom, landscape, cleared = false, false, false
 				continue
 			}
 			sz := c12sizeNames[r.Intn(5)]
